@@ -115,9 +115,22 @@ def frame_reader(repo, qual):
                 if isinstance(par, ast.Assign) and U(par.targets[0]) == data:
                     info["advance"] = (expand(L(sl.lower)), n)
     info["acc"] = []
+    info["dec"] = []
+    info["bound_guards"] = []
     for n in ast.walk(loop):
         if isinstance(n, ast.AugAssign) and isinstance(n.op, ast.Add) and U(n.target) != data:
             info["acc"].append((U(n.target), expand(L(n.value)), n))
+        if isinstance(n, ast.AugAssign) and isinstance(n.op, ast.Sub) and U(n.target) != data:
+            info["dec"].append((U(n.target), expand(L(n.value)), n))
+        # ``if <a> > <b>: return False``: recorded as the linear form a - b (>= 1 on the refusing side)
+        if isinstance(n, ast.If) and any(isinstance(x, ast.Return) and try_const(x.value, default=None) is False for x in n.body):
+            tests = n.test.values if isinstance(n.test, ast.BoolOp) and isinstance(n.test.op, ast.Or) else [n.test]
+            for t in tests:
+                if isinstance(t, ast.Compare) and len(t.ops) == 1 and isinstance(t.ops[0], (ast.Gt, ast.Lt)):
+                    a, b = L(t.left), L(t.comparators[0])
+                    if a is not None and b is not None:
+                        a, b = expand(a), expand(b)
+                        info["bound_guards"].append((a - b) if isinstance(t.ops[0], ast.Gt) else (b - a))
     return info
 
 
@@ -399,10 +412,25 @@ def run(repo, rep, tier):
         else:
             rep.ob("C05.R1", f, f"{short}: advances by 4 + length", False, "advance not found", key=f"C05.R1@{short}:advance")
     sn = readers["is_iwa_file"]
-    ok = any(_eq(v, Lin(HEADER, {"LEN": 1})) for _, v, _ in sn["acc"])
+    FRAME = Lin(HEADER, {"LEN": 1})
+    # form (a): a running total of 4 + length is compared with the data length at the end
+    ok = any(_eq(v, FRAME) for _, v, _ in sn["acc"])
     ret = [n for n in body_walk(sn["func"]) if isinstance(n, ast.Return) and isinstance(n.value, ast.Compare)]
     ok = ok and bool(ret) and isinstance(ret[0].value.ops[0], ast.Eq)
-    rep.ob("C05.R1", sn["func"], "is_iwa_file: total of (4 + length) over frames equals the data length", ok, "", key="C05.R1@is_iwa_file:total")
+    if not ok:
+        # form (b): a count of the bytes still to come starts at len(data), every frame is refused when 4 + length
+        # exceeds it and is subtracted from it otherwise (the loop ends exactly when the data is used up)
+        fn = sn["func"]
+        data_p = fn.args.args[0].arg
+        for var, v, node in sn["dec"]:
+            init = [n for n in fn.body if isinstance(n, ast.Assign) and len(n.targets) == 1 and U(n.targets[0]) == var and U(n.value).replace(" ", "") == f"len({data_p})"]
+            guard = any(_eq(g, FRAME - Lin(0, {var: 1})) for g in sn["bound_guards"])
+            tail = fn.body[-1]
+            ends_true = isinstance(tail, ast.Return) and try_const(tail.value, default=None) is True
+            if _eq(v, FRAME) and len(init) == 1 and guard and ends_true:
+                ok = True
+    rep.ob("C05.R1", sn["func"], "is_iwa_file: total of (4 + length) over frames equals the data length", ok,
+           "" if ok else "neither a running total compared with len(data) nor a remaining-bytes count with a bound check was found", key="C05.R1@is_iwa_file:total")
 
     # each chunk is decoded on its own: nothing but the remaining stream is carried from one chunk to the next
     da = repo.func("iwafile.py", "IWACompressedChunk._decompress_all")
@@ -623,6 +651,72 @@ def _anc(n, stop=None):
 
 
 VARIANTS = [
+    T("is-iwa-remaining-bytes-form", "iwafile.py", """def is_iwa_file(data):
+    data_length = len(data)
+    length = 0
+    while data:
+        header = data[:4]
+        if len(header) < 4:
+            return False
+
+        first_byte = header[0]
+        if first_byte != 0x00:
+            return False
+
+        segment_length = unpack("<I", bytes(header[1:]) + b"\\x00")[0]
+        length += segment_length + 4
+        data = data[4 + segment_length :]
+    return length == data_length
+""", """def is_iwa_file(data):
+    remaining = len(data)
+    while data:
+        header = data[:4]
+        if len(header) < 4:
+            return False
+
+        first_byte = header[0]
+        if first_byte != 0x00:
+            return False
+
+        segment_length = unpack("<I", bytes(header[1:]) + b"\\x00")[0]
+        if segment_length + 4 > remaining:
+            return False
+        remaining -= segment_length + 4
+        data = data[4 + segment_length :]
+    return True
+"""),
+    M("is-iwa-remaining-bytes-no-bound", "iwafile.py", """def is_iwa_file(data):
+    data_length = len(data)
+    length = 0
+    while data:
+        header = data[:4]
+        if len(header) < 4:
+            return False
+
+        first_byte = header[0]
+        if first_byte != 0x00:
+            return False
+
+        segment_length = unpack("<I", bytes(header[1:]) + b"\\x00")[0]
+        length += segment_length + 4
+        data = data[4 + segment_length :]
+    return length == data_length
+""", """def is_iwa_file(data):
+    remaining = len(data)
+    while data:
+        header = data[:4]
+        if len(header) < 4:
+            return False
+
+        first_byte = header[0]
+        if first_byte != 0x00:
+            return False
+
+        segment_length = unpack("<I", bytes(header[1:]) + b"\\x00")[0]
+        remaining -= segment_length + 4
+        data = data[4 + segment_length :]
+    return True
+""", "C05.R1"),
     M("chunker-drops-byte", "iwafile.py", "uncompressed = uncompressed[65536:]", "uncompressed = uncompressed[65537:]", "C05.R2"),
     M("chunk-too-big", "iwafile.py", "payloads.append(snappy.compress(uncompressed[:65536]))\n            uncompressed = uncompressed[65536:]",
       "payloads.append(snappy.compress(uncompressed[:131072]))\n            uncompressed = uncompressed[131072:]", "C05.R2"),
